@@ -59,6 +59,7 @@ class C01(RecorderProp):
             fails = []
             want = [[['ret', ['value', c['arg'], c['arg'] * 7]] if c['site'] == 'in' else ['ret', ['ack', wi, c['arg']]] for c in calls]
                     for wi, calls in enumerate(case['workers'])]
+            want.append([['ret', ['ack', c['w'], c['arg']]] for c in case.get('pre', []) + case.get('post', [])])
             for phase in ('record', 'replay'):
                 r = impl[phase]
                 if r['outcome'] != 'finished' or r['main'] not in ([['ret', 'done']], [['ret', 'played']]):
